@@ -75,6 +75,12 @@ func (s *httpProxy) Handle(ctx context.Context, conn net.Conn) error {
 			return err
 		}
 
+		if _, ok := req.Header["User-Agent"]; !ok {
+			// keep Request.Write from adding its default User-Agent to a
+			// request that was sent without one
+			req.Header.Set("User-Agent", "")
+		}
+
 		reqBody := &bytes.Buffer{}
 
 		dsw := io.MultiWriter(conn2, reqBody)
